@@ -1,5 +1,5 @@
-(** C08, the ordering half, under ParallelStabilize: REFUTED on the model (finding K13, a consequence of
-    K10 / K11).  For the serial stabilizer no node of the generation a bind is about to replace has
+(** C08, the ordering half, under ParallelStabilize: REFUTED on the model (a facet of the known finding
+    K10; confirmed on the library at parallelism 1).  For the serial stabilizer no node of the generation a bind is about to replace has
     run, in its current period of necessity, before the swap within the swapping pass
     (C08_binds_order.v).  Under ParallelStabilize it can.
 
@@ -16,7 +16,10 @@
     invalidates node 15, which has just run in the period that began with B's [EvNec 15].  The pass
     ends consistent.  The serial stabilizer on the same state ([C08_binds_order_parallel_serial_ex])
     runs node 15 only BEFORE A's swap, i.e. in the earlier period of necessity, and not again before
-    T's swap.  The pre-state satisfies [Inv], [ValInvB], [Tplain] (history theorem).
+    T's swap.  Note that no input of bind T changed in this pass: T's function re-ran only because T
+    had left the graph and lost its stamp, so the situation C08's text speaks of (a swap caused by
+    a changed bind input) does not arise here; it is recorded as a facet of K10.
+    The pre-state satisfies [Inv], [ValInvB], [Tplain] (history theorem).
     Proofs: ParBindOrder.v. *)
 From incr Require Import Base Heap HeapSpec HeapProofs EngineDefs Engine EngineRun EngineWf Spec EngineLemmas EngineLocal
      EngineInv EngineInvProofs PassInv PassProofs PassPlanProofs PassBind PassBindProofs PassBindSwap PassBindSwapProofs
